@@ -105,11 +105,11 @@ def pyTok (tok : String) : String := (Sexp.symName? tok).getD tok
 
 /-! ## Python's `int(token)` and `Fraction(token)` on the characters the lexer lets through -/
 
-def digitsVal (ds : List Char) : Nat := ds.foldl (fun acc c => acc * 10 + (c.toNat - '0'.toNat)) 0
+def digitsVal (ds : List Char) : Nat := Sexp.natOfDigits ds
 
 def takeDigits : List Char → List Char × List Char
   | [] => ([], [])
-  | c :: cs => if c.isDigit then let (d, r) := takeDigits cs; (c :: d, r) else ([], c :: cs)
+  | c :: cs => if Sexp.isDigit c then let (d, r) := takeDigits cs; (c :: d, r) else ([], c :: cs)
 
 /-- `int(s)` for `[+-]?[0-9]+` (what the model covers; other spellings ⇒ `none` = `ValueError`) -/
 def pyInt? (s : String) : Option Int :=
